@@ -43,6 +43,8 @@ type Cmd struct {
 	Scheds [][]int  `json:"scheds,omitempty"` // stream: chunk schedules
 	Errs   []string `json:"errs,omitempty"`   // fault kinds
 	V1Pid  string   `json:"v1pid,omitempty"`  // evolve: package of the older schema version
+	SkipB  []bool   `json:"skipb,omitempty"`  // corrupt: inputs not to run through UnmarshalBebop
+	SkipS  []bool   `json:"skips,omitempty"`  // corrupt: inputs not to run through DecodeBebop
 }
 
 // Event is one observation; fields are omitted when not applicable.
@@ -108,8 +110,13 @@ func emit(e *Event) {
 	out.Flush()
 }
 
-func begin(cid, m int, desc string) {
-	fmt.Fprintf(out, "#B %d %d %s\n", cid, m, desc)
+// begin announces a micro-operation. desc is the event that the supervisor
+// completes with res = crash|oom|timeout if the process dies before reporting.
+func begin(cid, m int, desc *Event) {
+	desc.Cid = cid
+	desc.M = m
+	b, _ := json.Marshal(desc)
+	fmt.Fprintf(out, "#B %d %d %s\n", cid, m, b)
 	out.Flush()
 }
 
@@ -247,7 +254,7 @@ func opCodec(pi *pkgInfo, c *Cmd) {
 	m := 0
 	rec := buildRecord(pi, c.Root, c.V, c.Cid%2 == 0)
 	// size
-	begin(c.Cid, m, "size")
+	begin(c.Cid, m, &Event{Ev: "size"})
 	var size int
 	{
 		e := &Event{Ev: "size", Cid: c.Cid, M: m}
@@ -262,7 +269,7 @@ func opCodec(pi *pkgInfo, c *Cmd) {
 	}
 	var outs []src
 	// MarshalBebop
-	begin(c.Cid, m, "MarshalBebop")
+	begin(c.Cid, m, &Event{Ev: "enc", API: "MarshalBebop"})
 	{
 		e := &Event{Ev: "enc", Cid: c.Cid, M: m, API: "MarshalBebop"}
 		var b []byte
@@ -276,7 +283,7 @@ func opCodec(pi *pkgInfo, c *Cmd) {
 	}
 	m++
 	for _, ps := range [][2]int{{0, 8}, {255, 8}, {165, 8}, {255, 0}} {
-		begin(c.Cid, m, "MarshalBebopTo")
+		begin(c.Cid, m, &Event{Ev: "enc", API: "MarshalBebopTo", Prior: ip(ps[0]), Slack: ip(ps[1])})
 		e := &Event{Ev: "enc", Cid: c.Cid, M: m, API: "MarshalBebopTo", Prior: ip(ps[0]), Slack: ip(ps[1])}
 		if size < 0 || size > 1<<26 {
 			e.Res = "skipped"
@@ -308,7 +315,7 @@ func opCodec(pi *pkgInfo, c *Cmd) {
 		emit(e)
 		m++
 	}
-	begin(c.Cid, m, "EncodeBebop")
+	begin(c.Cid, m, &Event{Ev: "enc", API: "EncodeBebop"})
 	{
 		e := &Event{Ev: "enc", Cid: c.Cid, M: m, API: "EncodeBebop"}
 		w := &recWriter{}
@@ -347,7 +354,7 @@ func opCodec(pi *pkgInfo, c *Cmd) {
 	}
 	for _, in := range inputs {
 		for _, api := range apis {
-			begin(c.Cid, m, "dec "+api)
+			begin(c.Cid, m, &Event{Ev: "dec", API: api, Srcs: in.srcs})
 			e := decodeEvent(pi, c, m, api, in.b)
 			e.Srcs = in.srcs
 			if in.srcs[0] != "ref" {
@@ -371,7 +378,7 @@ func opCuts(pi *pkgInfo, c *Cmd) {
 				m++
 				continue
 			}
-			begin(c.Cid, m, fmt.Sprintf("cut %s %d", api, k))
+			begin(c.Cid, m, &Event{Ev: "cut", API: api, K: ip(k)})
 			e := cutEvent(pi, c, m, api, ref[:k])
 			e.K = ip(k)
 			emit(e)
@@ -404,7 +411,11 @@ func opCorrupt(pi *pkgInfo, c *Cmd) {
 				m++
 				continue
 			}
-			begin(c.Cid, m, fmt.Sprintf("corrupt %s %d", api, i))
+			if (api == "UnmarshalBebop" && i < len(c.SkipB) && c.SkipB[i]) || (api == "DecodeBebop" && i < len(c.SkipS) && c.SkipS[i]) {
+				m++
+				continue
+			}
+			begin(c.Cid, m, &Event{Ev: "corrupt", API: api, Idx: ip(i)})
 			e := cutEvent(pi, c, m, api, in)
 			e.Ev = "corrupt"
 			e.Idx = ip(i)
@@ -475,7 +486,7 @@ func opRFault(pi *pkgInfo, c *Cmd) {
 					m++
 					continue
 				}
-				begin(c.Cid, m, fmt.Sprintf("rfault %s %s %d", kind, style, k))
+				begin(c.Cid, m, &Event{Ev: "rfault", API: "DecodeBebop", K: ip(k), Kind: kind, Style: style})
 				e := &Event{Ev: "rfault", Cid: c.Cid, M: m, API: "DecodeBebop", K: ip(k), Kind: kind, Style: style}
 				rec := newRecord(pi.Pid, c.Root)
 				fr := &faultReader{data: ref, k: k, err: faultErr(kind), style: style}
@@ -519,7 +530,7 @@ func opWFault(pi *pkgInfo, c *Cmd) {
 	ref := bytesFromInts(c.Ref)
 	rec := buildRecord(pi, c.Root, c.V, c.Cid%2 == 0)
 	m := 0
-	begin(c.Cid, m, "wfault count")
+	begin(c.Cid, m, &Event{Ev: "wcount", API: "EncodeBebop"})
 	w0 := &recWriter{}
 	e0 := &Event{Ev: "wcount", Cid: c.Cid, M: m, API: "EncodeBebop"}
 	e0.Res, e0.Msg, e0.Big, e0.Alloc = call(len(ref), func() error { return rec.EncodeBebop(w0) })
@@ -535,7 +546,7 @@ func opWFault(pi *pkgInfo, c *Cmd) {
 					m++
 					continue
 				}
-				begin(c.Cid, m, fmt.Sprintf("wfault %s %s %d", kind, style, k))
+				begin(c.Cid, m, &Event{Ev: "wfault", API: "EncodeBebop", K: ip(k), Kind: kind, Style: style})
 				e := &Event{Ev: "wfault", Cid: c.Cid, M: m, API: "EncodeBebop", K: ip(k), Kind: kind, Style: style}
 				fw := &faultWriter{failAt: k, err: faultErr(kind), style: style}
 				e.Res, e.Msg, e.Big, e.Alloc = call(len(ref), func() error { return rec.EncodeBebop(fw) })
